@@ -22,21 +22,14 @@ theorem p_bCopy (n : Nat) (sh : Sh) (pcs : Tid → Pc) (apcs : Tid → MpscA.Pc)
   rw [hx2] at hx3
   have hx4 := List.isEmpty_iff_length_eq_zero (l := acc)
   simp only [tstepC, touch] at hts
-  simp only [hx2] at hts
-  by_cases hg1 : sh.a.ready sh.a.head = true
-  · by_cases hg2 : sh.a.head + 1 ≥ ce <;>
-    (
-      simp only [hg1, hg2, ↓reduceIte] at hts
-      bbranches
-      simp only [advA, MpscA.tstep, hg1, hg2, aB, eq_self, Bool.false_eq_true, ↓reduceIte] at hA' ⊢
-      bfin 0
-    )
-  · (
-      simp only [hg1, ↓reduceIte] at hts
-      bbranches
-      simp only [advA, MpscA.tstep, hg1, aB, eq_self, Bool.false_eq_true, ↓reduceIte] at hA' ⊢
-      bfin 0
-    )
+  try simp only [hx2] at hts
+  by_cases hg1 : sh.a.ready sh.a.head = true <;>
+  (
+    simp only [hg1, ↓reduceIte] at hts
+    bbranches
+    simp only [advA, MpscA.tstep, hg1, aB, eq_self, Bool.false_eq_true, ↓reduceIte] at hA' ⊢
+    bfin 0
+  )
 
 
 end MayVerif.Mpsc
